@@ -199,7 +199,7 @@ func (c *fakeConn) Begin() (driver.Tx, error) {
 }
 
 func (c *fakeConn) BeginTx(ctx context.Context, opts driver.TxOptions) (driver.Tx, error) {
-	if err := c.db.step(event{Kind: "begin", Conn: c.id}, ctx); err != nil {
+	if err := c.db.step(event{Kind: "begin", Conn: c.id, SQL: fmt.Sprintf("isolation=%d readonly=%v", opts.Isolation, opts.ReadOnly)}, ctx); err != nil {
 		return nil, err
 	}
 	return &fakeTx{conn: c}, nil
